@@ -597,3 +597,247 @@ def c17(ctx):
                        "the API cannot produce it), saved, reloaded and compared; at/below the limit the content must survive; beyond it save must throw or the file must still load to the same content")
 
 CHECKS.update({"C17": c17})
+
+# ------------------------------------------------------------------------------------------ C15
+def c15(ctx):
+    ctx.audit = leanaudit.audit(ctx.pid, thorough=not ctx.quick)
+    exe = ctx.exe("asan")
+    X = gen.xhex; F = gen.f2h
+    def obj(npts, nch, nfr, extra_params):
+        L = ["new"] + ["point %s" % X(b"P%d" % i) for i in range(npts)] + ["analog %s" % X(b"C%d" % i) for i in range(nch)]
+        L += ["param x504f494e54 x52415445 x 0 F - %s" % F(100.0), "param x414e414c4f47 x52415445 x 0 F - %s" % F(200.0)]
+        for i in range(extra_params): L.append("param x4747 %s %s 0 F 10,10 %s" % (X(b"Q%d" % i), X(b"d" * (i * 37 % 200)), ",".join(["3f800000"] * 100)))
+        if nfr:
+            pts = ";".join("%s:%s:%s:%s:%s" % (X(b"P%d" % i), F(1.0 + i), F(2.0), F(3.0), F(0.0)) for i in range(npts)) or "-"
+            sub = ";".join("%s:%s" % (X(b"C%d" % i), F(0.5 * i)) for i in range(nch))
+            L.append("mkframe v %s %s" % (pts, "|".join([sub] * 2) if nch else "-"))
+            L += ["frame v"] * nfr
+        return L + ["dumpmode none"]
+    objects = [("tiny", obj(0, 0, 0, 0)), ("small", obj(2, 1, 3, 1)), ("medium", obj(5, 3, 40, 6)), ("large", obj(20, 8, 400, 30))]
+    jobs = []
+    for name, L in objects:
+        jobs.append((name, L))
+    def one(job):
+        name, L = job
+        # first learn the total with an unlimited budget
+        r0 = run.run_pair(L + ["savefault @W@/p.c3d 100000000"], exe)
+        tot = None
+        for rec in r0.hrecs:
+            if rec["op"] == "savefault" and rec["res"] == "R ok":
+                for l in rec["lines"]:
+                    if l.startswith("W "): tot = int(l.split(" ")[1])
+        if tot is None: return job, None, r0, [("_nototal", {}, "")], []
+        if tot <= 4200 or not ctx.quick and tot <= 20000: ks = list(range(0, tot + 3))
+        else:
+            n = 256 if ctx.quick else 2048
+            ks = sorted(set([0, 1, 511, 512, 513, 1023, 1024, 1025, tot - 2, tot - 1, tot, tot + 1] + [tot * i // n for i in range(n)] + [8191 * i + d for i in range(1, tot // 8191 + 1) for d in (-1, 0, 1)]))
+        S = L + ["savefault @W@/q.c3d %d" % k for k in ks] + ["save @W@/full.c3d", "savex /nonexistent-dir-verif/x.c3d", "savex /dev/full", "savex @W@/lim.c3d %d" % max(tot // 2, 1),
+                 "savex @W@/lim0.c3d 0", "savex /proc/version", "savex @W@"]
+        res = run.run_pair(S, exe, timeout=900)
+        fails = []
+        lines = res.script.split("\n")
+        fired = 0
+        for rec in res.hrecs:
+            t = lines[rec["n"] - 1].split(" ")
+            if rec["op"] == "savefault":
+                k = int(t[2])
+                w = [l for l in rec["lines"] if l.startswith("W ")]
+                if rec["res"] == "R ok":
+                    if k < tot or (w and "fault-fired" in w[0]):
+                        fails.append(("returns_normally_on_fault", {"object": name, "k": k, "total": tot}, "save returned normally although the OS accepted only %d of %d bytes" % (k, tot)))
+                else:
+                    fired += 1
+                    if rec["res"] != "R throw ios_failure": fails.append(("fault_class", {"object": name, "k": k, "got": rec["res"]}, "a failed save threw %s instead of an I/O failure" % rec["res"]))
+                    if k >= tot: fails.append(("false_failure", {"object": name, "k": k}, "save reported a failure although every byte was accepted"))
+            elif rec["op"] == "savex":
+                if rec["res"] != "R throw ios_failure":
+                    fails.append(("destination_fault", {"object": name, "dest": t[1].replace(res.wd, "@W@"), "got": rec["res"]}, "save to %s returned %s" % (t[1], rec["res"])))
+        return job, (tot, len(ks), fired), res, fails, S
+    for item in core.pmap(one, jobs, workers=4):
+        job, info, res, fails = item[0], item[1], item[2], item[3]
+        S = item[4] if len(item) > 4 else []
+        name = job[0]
+        if info:
+            ctx.count("object_%s_bytes" % name, info[0]); ctx.count("fault_offsets_%s" % name, info[1]); ctx.count("faults_fired_%s" % name, info[2])
+            for k in range(info[1]): ctx.distinct_key("fault", name, k)
+        ctx.record_pair(res, S if len(S) < 300 else S[:len(job[1])] + ["# ... %d savefault lines ..." % (len(S) - len(job[1]) - 7)] + S[-7:], "faults")
+        ctx.sample("[%s] ... ; savefault @W@/q.c3d 0 ; savefault @W@/q.c3d 1 ; ... ; savex /dev/full ; savex <path> <RLIMIT_FSIZE>" % name)
+        for c, w, dt in fails:
+            if c.startswith("_"): ctx.notes.append(name + ": could not learn the output size")
+            else: ctx.fail(c, w, dt, S if len(S) < 3000 else job[1] + ["savefault @W@/q.c3d %s" % w.get("k", 0)])
+    return core.finish(ctx, "fault enumeration under the proof-level model of the save procedure: for 4 object sizes, write(2)/writev(2) of the instrumented library are interposed so that the OS "
+                       "accepts exactly k bytes then answers ENOSPC, for every k in 0..total+2 (files <= 4 KB; 256 stratified k incl. buffer boundaries above; all/2048 in the thorough tier), plus real "
+                       "destinations: missing directory, /dev/full, RLIMIT_FSIZE at half the size and at 0, an unwritable /proc file, a directory; "
+                       "expected: I/O failure iff k < total; distinct = (object, k)", level="proof")
+
+CHECKS.update({"C15": c15})
+
+# ------------------------------------------------------------------------------------------ C16
+def c16_bases(ctx, wd):
+    """valid files to damage: one saved by the library through the API, generated layout variants"""
+    from . import c3dgen
+    exe = ctx.exe("asan")
+    bases = []
+    L, st = gen.gen_api_history(ctx.seed * 13 + 1, nops=25, malformed=0.0, with_io=None, within_capacity=True, rep=True)
+    p = os.path.join(wd, "api.c3d")
+    run.run_pair(L + ["save %s" % p], exe, wd=wd, name="mk")
+    if os.path.exists(p): bases.append(("api", p))
+    for i in range(3 if ctx.quick else 12):
+        q = os.path.join(wd, "gen%d.c3d" % i)
+        desc, _ = c3dgen.make_file(ctx.seed * 101 + i, q)
+        bases.append(("gen-" + desc, q))
+    if not ctx.quick: bases.append(("optotrak", "/repo/test/c3dFiles/Optotrak.c3d"))
+    return bases
+
+def c16_field_positions(b):
+    """byte offsets of structural fields: header words, prologue, every record's name length, id, offset, type, ndims, dims, desc length"""
+    import struct
+    pos = set(range(0, 24)) | set(range(294, 304))
+    try:
+        z = 0
+        while z < len(b) and b[z] == 0: z += 1
+        base = z + 512 * (b[z] - 1)
+        pos |= set(range(base, base + 4))
+        p = base + 4
+        for _ in range(500):
+            n = struct.unpack_from("b", b, p)[0]
+            pos.add(p)
+            if n == 0: break
+            pos.add(p + 1)
+            gid = struct.unpack_from("b", b, p + 1)[0]
+            o = p + 2 + abs(n); pos |= {o, o + 1}
+            off = struct.unpack_from("<H", b, o)[0]
+            if gid > 0:
+                q = o + 2; pos |= {q, q + 1}
+                nd = b[q + 1]; pos |= set(range(q + 2, q + 2 + nd))
+            pos.add(o + off - 1 if off else o)
+            if off == 0: break
+            p = o + off
+    except Exception: pass
+    return sorted(x for x in pos if x < len(b))
+
+def c16(ctx):
+    import random
+    ctx.audit = leanaudit.audit(ctx.pid, thorough=not ctx.quick)
+    exe = ctx.exe("asan")
+    r = random.Random(ctx.seed)
+    top = run.workdir()
+    bases = c16_bases(ctx, top)
+    mutants = []     # (tag, path)
+    VALS = [0, 1, 0x7F, 0x80, 0xFF]
+    k = 0
+    for tag, path in bases:
+        b = open(path, "rb").read()
+        struct_pos = c16_field_positions(b)
+        hdr_end = min(len(b), 2048 if ctx.quick else len(b))
+        # truncations
+        if len(b) <= 3000 or not ctx.quick: tl = list(range(0, min(len(b), 6000))) if not ctx.quick else list(range(0, len(b), 1)) if len(b) <= 1600 else sorted(set(range(0, len(b), 7)) | set(struct_pos))
+        else: tl = sorted(set(range(0, len(b), 37)) | set(struct_pos) | set(x + 1 for x in struct_pos))
+        if tag == "optotrak": tl = sorted(set(range(0, 1024, 3)) | set(range(1024, len(b), 997)))
+        for n in tl: mutants.append(("%s-trunc-%d" % (tag, n), b[:n]))
+        # single overwrites of structural fields with boundary values + random
+        poss = struct_pos if (ctx.quick or tag == "optotrak") else sorted(set(struct_pos) | set(range(0, min(len(b), 1536))))
+        for p in poss:
+            for v in VALS + [r.randrange(256)]:
+                if b[p] != v: mutants.append(("%s-set-%d-%02x" % (tag, p, v), b[:p] + bytes([v]) + b[p + 1:]))
+        # pairs
+        for _ in range(150 if ctx.quick else 3000):
+            p1, p2 = r.choice(struct_pos), r.choice(struct_pos)
+            bb = bytearray(b); bb[p1] = r.choice(VALS + [r.randrange(256)]); bb[p2] = r.choice(VALS + [r.randrange(256)])
+            mutants.append(("%s-pair-%d-%d" % (tag, p1, p2), bytes(bb)))
+        # random garbage and zero files
+    if ctx.quick and len(mutants) > 6000:
+        keep = set(r.sample(range(len(mutants)), 6000)); mutants = [m for i, m in enumerate(mutants) if i in keep]
+    # announced counts far beyond the file size (the cost finding): FRAMES = 32767 and USED = 255 in the library-saved file
+    for tag, path in bases[:1]:
+        b = bytearray(open(path, "rb").read())
+        i = b.find(b"FRAMES"); j = b.find(b"USED")
+        if i > 0 and j > 0:
+            b[i + 6 + 4:i + 6 + 6] = b"\xff\x7f"; b[j + 4 + 4:j + 4 + 6] = b"\xff\x00"
+            mutants.append(("api-claim-32767x255", bytes(b)))
+    for n in (0, 1, 2, 511, 512, 513, 1024):
+        mutants.append(("zeros-%d" % n, bytes(n))); mutants.append(("ones-%d" % n, b"\x01\x50" + bytes([255]) * max(n - 2, 0)))
+        mutants.append(("rand-%d" % n, bytes(r.randrange(256) for _ in range(n))))
+    # write mutants, batch them
+    BATCH = 40
+    batches = []
+    for i in range(0, len(mutants), BATCH):
+        chunk = mutants[i:i + BATCH]
+        d = os.path.join(top, "b%d" % (i // BATCH)); os.makedirs(d)
+        S = ["dumpmode shape"]
+        for j, (tag, data) in enumerate(chunk):
+            fp = os.path.join(d, "m%d.c3d" % j); open(fp, "wb").write(data); S.append("load %s" % fp)
+        batches.append((chunk, S, d))
+    STD = {"ios_failure", "out_of_range", "invalid_argument", "length_error", "range_error", "runtime_error", "bad_alloc", "logic_error"}
+    def one(batch):
+        chunk, S, d = batch
+        # pre-pass with the model only: files whose announced data size is huge are not given to the library here
+        sp = os.path.join(d, "pre.txt"); open(sp, "w").write("\n".join(S) + "\n")
+        run.run_driver(sp, os.path.join(d, "pre.m"))
+        pre, _ = run.parse_output(os.path.join(d, "pre.m"))
+        claimed = {x["n"]: x["res"] for x in pre if x["res"] and x["res"].startswith("R claimed")}
+        S2 = [("# " + l if (i + 1) in claimed else l) for i, l in enumerate(S)]
+        res = run.run_pair(S2, exe, wd=d, timeout=240)
+        for n, rr in claimed.items():
+            res.mrecs.append({"n": n, "op": "load", "res": rr, "lines": []})
+        out = []      # (tag, lib result, model result, problem or None)
+        hm = {x["n"]: x for x in res.hrecs}; mm = {x["n"]: x for x in res.mrecs}
+        crashed_at = None
+        if res.crash:
+            crashed_at = res.hrecs[-1]["n"] if res.hrecs else 2
+        for j, (tag, data) in enumerate(chunk):
+            n = j + 2
+            h, m = hm.get(n), mm.get(n)
+            hr = h["res"] if h else None; mr = m["res"] if m else None
+            out.append((tag, hr, mr, h["lines"] if h else None, m["lines"] if m else None))
+        return batch, res, out, crashed_at
+    results = core.pmap(one, batches)
+    redo = []
+    nlarge = 0
+    for (chunk, S, d), res, out, crashed_at in results:
+        ctx.evaluations += len(chunk)
+        for j, (tag, hr, mr, hl, ml) in enumerate(out):
+            n = j + 2
+            kind = tag.split("-")[-3] if "-pair-" in tag else (tag.split("-")[-2] if ("-trunc-" in tag) else (tag.split("-")[-3] if "-set-" in tag else tag.split("-")[0]))
+            ctx.count("mutant_" + kind)
+            if crashed_at is not None and n >= crashed_at:
+                redo.append((tag, os.path.join(d, "m%d.c3d" % j))); continue
+            ctx.count("outcome_" + (hr or "none").replace("R ", "").replace(" ", "_"))
+            ctx.distinct_key("c16", kind, hr, len(hl or []))
+            if mr and mr.startswith("R claimed"):
+                nlarge += 1
+                ctx.fail("cost_follows_announced_size", {"claimed": "large"}, "%s: the header/parameters announce %s floats of data: the loader allocates and loops over the announced counts whatever the file size (library: %s)" % (tag, mr.split(" ")[2], hr), ["dumpmode shape", "load <%s>" % tag])
+                continue
+            if hr is None: redo.append((tag, os.path.join(d, "m%d.c3d" % j))); continue
+            if hr.startswith("R throw") and hr.split(" ")[2] not in STD:
+                ctx.fail("non_standard_exception", {"tag": tag, "got": hr}, "loading %s threw something that is not a standard exception" % tag, ["load <%s>" % tag])
+            if hr != mr or hl != ml:
+                fp = os.path.join(d, "m%d.c3d" % j)
+                keep = os.path.join(core.REPLAYS, "C16-%s.c3d" % tag[:60]); os.makedirs(core.REPLAYS, exist_ok=True)
+                try:
+                    import shutil; shutil.copy(fp, keep)
+                except Exception: pass
+                ctx.disagreements.append(("damaged", "file %s: library %s, model %s%s" % (tag, hr, mr, "" if hr != mr else " (dumps differ)"), ["dumpmode shape", "load %s" % keep]))
+    # re-run the crashed / unreached ones one per process: the crash itself is the violation
+    def single(item):
+        tag, fp = item
+        S = ["dumpmode shape", "load %s" % fp]
+        res = run.run_pair(S, exe, timeout=120)
+        return item, res
+    for (tag, fp), res in core.pmap(single, redo):
+        if res.crash:
+            keep = os.path.join(core.REPLAYS, "C16-%s.c3d" % tag[:60]); os.makedirs(core.REPLAYS, exist_ok=True)
+            import shutil; shutil.copy(fp, keep)
+            ctx.crashes.append(("damaged", "loading the damaged file %s: %s" % (tag, res.crash[-1200:]), ["dumpmode shape", "load %s" % keep]))
+        else:
+            ctx.record_pair(res, ["dumpmode shape", "load <%s>" % tag], "damaged-single")
+    ctx.lane_counts["damaged"] = len(mutants)
+    ctx.sample("[damaged] base files: %s" % ", ".join(t for t, p in bases))
+    ctx.sample("[damaged] mutants like: " + ", ".join(m[0] for m in mutants[:3] + mutants[len(mutants) // 2: len(mutants) // 2 + 3] + mutants[-3:]))
+    run.cleanup(top)
+    return core.finish(ctx, "structure-aware corruption of valid files (one saved by the library, generated layout variants, thorough: the truncated Optotrak fixture): every truncation length "
+                       "(stratified for larger files), every structural byte (header words, prologue, each record's name length / id / next offset / type / dimension count / dimensions / "
+                       "description length) set to 0, 1, 0x7F, 0x80, 0xFF and a random value, random pairs of such overwrites, all-zero / garbage files; each loaded by the ASan+UBSan library "
+                       "(abort or time-out = violation) and by the Lean model (outcome class and loaded shape must agree); distinct = (mutation kind, outcome, shape size)")
+
+CHECKS.update({"C16": c16})
